@@ -24,7 +24,7 @@ func (c15) Budget(tier string) (int, int) {
 	if tier == "thorough" {
 		return 5000000, 600
 	}
-	return 40000, 25
+	return 16000, 90
 }
 func (c15) Rule() string {
 	return "seeded histories of 1-10 ReadValue / ReadObject / ReadArray calls on ONE ValueReader (entry point drawn per call), on documents of very different sizes and classes: successes, syntax errors deep inside nested containers, root-type mismatches, null for the typed entry points, number overflow, nesting 10,001+ (depth-limit exit on a pooled child). Pool schedule from the tape at every borrow: P-miss (fresh child although readers are pooled), P-pick (an older pooled reader, with its own stale hints/scratch/depth), P-evict (all pooled readers dropped, as a GC does), plus evictions between calls. Caller mutations of returned trees between calls (overwrite elements, add/delete keys, append within and beyond capacity). Oracle: each result equals the result of a brand-new ValueReader on a fresh copy of the bytes; every tree returned so far is deep-snapshotted at return and re-compared after every later step. Non-trivial: >= 2 reads on the reader or a pool fault fired; distinct = distinct hashes of (entry point, document class, outcome, pool decisions, mutations)."
@@ -379,7 +379,7 @@ func (c03) Budget(tier string) (int, int) {
 	if tier == "thorough" {
 		return 5000000, 600
 	}
-	return 40000, 25
+	return 8000, 90
 }
 func (c03) Rule() string {
 	return "REDUCED SCOPE (the input dimension of C03 is only sampled): seeded histories of 1-10 generic reads (ReadValue/ReadObject/ReadArray through one reused ValueReader and through the free functions) of generated trees - duplicate keys in plain and escaped spelling, escaped keys after nested objects, empty containers, deep/wide nesting, numbers on every float path, raw invalid UTF-8 - and of mutated documents, under tape-decided pool schedules (P-miss / P-pick / P-evict at every borrow). Oracle: an independent reference parser (last duplicate wins, invalid UTF-8 verbatim, strconv.ParseFloat, offset = end of value, success iff well-formed, nesting <= 10,000 and all numbers finite; ReadObject/ReadArray reject every other root type incl. null); the reference itself is cross-checked against encoding/json's streaming decoder on every document <= 64 KB (tree after U+FFFD replacement, when no two keys collide). Non-trivial: a container was decoded through at least one pooled borrow or >= 2 reads happened; distinct = distinct hashes of (entry point, document class, outcome, pool decisions)."
